@@ -207,6 +207,9 @@ func needleCensus(c *core.Ctx, rule string, scope []*ssa.Function) int {
 				c.Check(cal.Name() == "Index" || cal.Name() == "IndexByte", rule, fn.Name(), key, call.Pos(), "next delimiter", "the delimiter is located with "+name+": a value ends at the first delimiter after it")
 			default:
 				// data-derived or constant needles: the group separator and the '=' search are checked below
+				if cal.Name() == "IndexByte" && shape == "'='" {
+					return
+				}
 				if cal.Name() == "Index" && (shape == "'='" || (fn.Name() == "splitGroup" && call.Call.Args[ni] == ssa.Value(fn.Params[1]))) {
 					return
 				}
@@ -266,6 +269,11 @@ func checkGroupSeparator(c *core.Ctx, rule string) {
 						if idx, ok := bo.X.(*ssa.Call); ok && an.CalleeIs(&idx.Call, "bytes", "Index") && idx.Call.Args[0] == ssa.Value(line) {
 							ev := &an.SeqEval{}
 							if ev.Eval(idx.Call.Args[1]).Norm().String() == "'='" {
+								okHi = true
+							}
+						}
+						if idx, ok := bo.X.(*ssa.Call); ok && an.CalleeIs(&idx.Call, "bytes", "IndexByte") && idx.Call.Args[0] == ssa.Value(line) {
+							if k, isK := an.ConstInt(idx.Call.Args[1]); isK && k == '=' {
 								okHi = true
 							}
 						}
